@@ -78,16 +78,16 @@ class EventExpect(object):
     required   ordered list: these layers must see the event exactly once, in this relative order
     optional   set: may see it at most once (statement silent / ambiguous, see the judgement calls
                in c18_stack_assembly.py)
-    own        set: members of the emitter's own group (subset of optional)
-    may_stop   True when the single consumer sits in the emitter's own group: the statement does not
-               say whether a sibling's verdict stops the walk, so "nothing above saw it" is accepted
-               as well as "everything above saw it"
+    own        set: members of the emitter's own group (subset of optional).  They are not above
+               (below) the emitter: whether or not they see or "consume" the event has no bearing on
+               the walk - every layer strictly above (below) the group is still required until one of
+               THOSE layers consumes it
     sync_ok    set: layers that may see a *deferred* event before the loop runs (the emitter's own
                group and its direct neighbour element); every other layer must see it only while
                the loop runs
     everything else is forbidden (wrong side of the emitter, or beyond the consumer's element).
     """
-    __slots__ = ("required", "optional", "own", "may_stop", "sync_ok")
+    __slots__ = ("required", "optional", "own", "sync_ok")
 
 
 def event_expect(elems, emitter, direction, consumer):
@@ -106,7 +106,6 @@ def event_expect(elems, emitter, direction, consumer):
         sync_elems = path[:1]
     x = EventExpect()
     x.own = set(own)
-    x.may_stop = consumer in x.own
     x.required = []
     x.optional = set(own)
     x.sync_ok = set(own)
@@ -150,9 +149,7 @@ def judge_event(x, seen_sync, seen_loop, detached):
         if l not in dedup:
             dedup.append(l)
     if dedup != x.required:
-        if x.may_stop and not dedup:
-            pass
-        elif set(dedup) != set(x.required):
+        if set(dedup) != set(x.required):
             bad.append(("missed", {"required_in_order": x.required, "saw": dedup}))
         else:
             bad.append(("order", {"required_in_order": x.required, "saw": dedup}))
